@@ -1,35 +1,57 @@
 #!/usr/bin/env python3
 """tools/run_seeded.py [Cxx-n ...]  : apply each seeded mutation to a scratch copy of /repo's current tree and run the
-checks (the mutation's own property first, then all others); prints which checks fire.  Developer tool."""
-import json, os, shutil, subprocess, sys, tempfile, glob
+checks (the mutation's own property first, then all others); prints which checks fire.  Developer tool.
+OWN=1: only the mutation's own property.  JOBS=n: n mutations at a time, each worker with its own MIR cache
+(/verif/.cache/w<i>, seeded with a copy of the shared cargo target directory)."""
+import json, os, shutil, subprocess, sys, tempfile, glob, threading, queue
+from concurrent.futures import ThreadPoolExecutor
 VERIF = os.path.dirname(os.path.dirname(os.path.abspath(__file__)))
 man = json.load(open(os.path.join(VERIF, "MANIFEST.json")))
 claimed = [c["property_id"] for c in man["checks"]]
 names = sys.argv[1:] or sorted(os.path.basename(d) for d in glob.glob(os.path.join(VERIF, "seeded", "C*-*")))
 only_own = os.environ.get("OWN") == "1"
-for name in names:
+JOBS = int(os.environ.get("JOBS", "1"))
+caches = queue.Queue()
+for i in range(JOBS):
+    if JOBS == 1:
+        caches.put(os.path.join(VERIF, ".cache"))
+    else:
+        c = os.path.join(VERIF, ".cache", "w%d" % i)
+        if not os.path.exists(os.path.join(c, "target")) and os.path.exists(os.path.join(VERIF, ".cache", "target")):
+            os.makedirs(c, exist_ok=True)
+            subprocess.check_call(["cp", "-r", os.path.join(VERIF, ".cache", "target"), os.path.join(c, "target")])
+        caches.put(c)
+
+
+def one(name):
     d = os.path.join(VERIF, "seeded", name)
     patch = os.path.join(d, "patch.current.diff") if os.path.exists(os.path.join(d, "patch.current.diff")) else os.path.join(d, "patch.diff")
     tmp = tempfile.mkdtemp(prefix="vseed-", dir="/tmp")
     etmp = tempfile.mkdtemp(prefix="vseedev-", dir="/tmp")
+    cache = caches.get()
     try:
         subprocess.check_call(["rsync", "-a", "--exclude", "target", "--exclude", ".git", "/repo/", tmp + "/"])
         r = subprocess.run(["patch", "-p1", "--no-backup-if-mismatch", "-s", "-i", patch], cwd=tmp, capture_output=True, text=True)
         if r.returncode != 0:
-            print("%s: PATCH DOES NOT APPLY to the current tree (%s)" % (name, (r.stdout + r.stderr).strip().splitlines()[:2]))
-            continue
+            return "%s: PATCH DOES NOT APPLY to the current tree (%s)" % (name, (r.stdout + r.stderr).strip().splitlines()[:2])
         own = name.split("-")[0]
         order = [own] + ([] if only_own else [p for p in claimed if p != own])
         fired = []
         for pid in order:
             if pid not in claimed:
                 continue
-            env = dict(os.environ, VERIF_REPO=tmp, VERIF_CACHE=os.path.join(VERIF, ".cache"), VERIF_EVIDENCE_DIR=etmp)
+            env = dict(os.environ, VERIF_REPO=tmp, VERIF_CACHE=cache, VERIF_EVIDENCE_DIR=etmp)
             rr = subprocess.run([os.path.join(VERIF, "bin/check"), pid, "--quick"], env=env, capture_output=True, text=True)
             if rr.returncode != 0:
                 keys = [l.strip()[len("construct: "):] for l in rr.stdout.splitlines() if l.strip().startswith("construct:")]
                 fired.append((pid, keys[:3]))
-        print("%s: %s" % (name, "CAUGHT by " + "; ".join("%s %s" % (p, k) for p, k in fired) if fired else "MISSED"))
+        return "%s: %s" % (name, "CAUGHT by " + "; ".join("%s %s" % (p, k) for p, k in fired) if fired else "MISSED")
     finally:
+        caches.put(cache)
         shutil.rmtree(tmp, ignore_errors=True)
         shutil.rmtree(etmp, ignore_errors=True)
+
+
+with ThreadPoolExecutor(max_workers=JOBS) as ex:
+    for line in ex.map(one, names):
+        print(line, flush=True)
